@@ -21,7 +21,11 @@ def run_chunk(args):
     base, k, cases = args
     d = os.path.join(base, "w%d" % k); os.makedirs(d)
     jf = os.path.join(d, "job.json"); json.dump({"base": d, "cases": cases}, open(jf, "w"))
-    p = subprocess.run(["/venv/bin/python", WORKER, jf], env=dict(os.environ, PYTHONPATH=os.environ.get("VERIF_REPO", "/repo"), PYTHONDONTWRITEBYTECODE="1"), capture_output=True, text=True, timeout=1700)
+    env = dict(os.environ, PYTHONPATH=os.environ.get("VERIF_REPO", "/repo"), PYTHONDONTWRITEBYTECODE="1")
+    # the age limit compares access times with "now": the answer must not depend on the time zone of the process
+    tz = (None, "XEA-9", "XWE5", "XIN-5:30")[k % 4]
+    if tz: env["TZ"] = tz
+    p = subprocess.run(["/venv/bin/python", WORKER, jf], env=env, capture_output=True, text=True, timeout=1700)
     if not os.path.exists(jf + ".out"):
         raise RuntimeError("evict worker failed: " + p.stderr[-500:])
     res = json.load(open(jf + ".out")); shutil.rmtree(d, ignore_errors=True)
